@@ -41,9 +41,9 @@ FLOORS = {
     "quick": {"law.height": 1100, "law.contiguity": 1100, "law.grid": 1100, "law.boundary": 5500, "law.target-mass": 5500, "law.uniform-solid-mass": 4500,
               "law.stacked": 10000, "law.component-height": 15000, "law.factors": 1100, "law.linkage": 1100, "law.inverse": 120, "law.temperature": 450,
               "hook:AxialExpansionChanger.axiallyExpandAssembly": 1100, "construction.expandColdDimsToHot": 70},
-    "thorough": {"law.height": 20000, "law.contiguity": 20000, "law.grid": 20000, "law.boundary": 60000, "law.target-mass": 60000, "law.uniform-solid-mass": 40000,
-                 "law.stacked": 100000, "law.component-height": 120000, "law.factors": 20000, "law.linkage": 6000, "law.inverse": 1500, "law.temperature": 4000,
-                 "hook:AxialExpansionChanger.axiallyExpandAssembly": 20000, "construction.expandColdDimsToHot": 300},
+    "thorough": {"law.height": 13000, "law.contiguity": 13000, "law.grid": 13000, "law.boundary": 65000, "law.target-mass": 65000, "law.uniform-solid-mass": 55000,
+                 "law.stacked": 130000, "law.component-height": 190000, "law.factors": 13000, "law.linkage": 13000, "law.inverse": 1500, "law.temperature": 5500,
+                 "hook:AxialExpansionChanger.axiallyExpandAssembly": 13000, "construction.expandColdDimsToHot": 800},
 }
 TIMEOUT = {"quick": 600, "thorough": 3600}
 ASSUMPTIONS = [
@@ -57,9 +57,9 @@ KNOWN_KEY = "target-mass/linked-below-nontarget-differential-growth"
 
 def plan(tier, seed):
     q = tier == "quick"
-    out = [{"name": "direct%d" % i, "kind": "direct", "n": 40 if q else 500} for i in range(9)]
-    out += [{"name": "bp%d" % i, "kind": "blueprint", "n": 10 if q else 120} for i in range(5)]
-    out += [{"name": "ref%d" % i, "kind": "reference", "n": 5 if q else 70, "hot": bool(i % 2)} for i in range(2)]
+    out = [{"name": "direct%d" % i, "kind": "direct", "n": 45 if q else 560} for i in range(8)]
+    out += [{"name": "bp%d" % i, "kind": "blueprint", "n": 12 if q else 150} for i in range(4)]
+    out += [{"name": "ref%d" % i, "kind": "reference", "n": 3 if q else 35, "hot": bool(i % 2)} for i in range(4)]
     return out
 
 
